@@ -152,3 +152,17 @@ func specTimeout(ms int) time.Duration { return time.Duration(ms) * time.Millise
 //@ ensures[C17.parse.skip.value]  ret1 == nil ==> ret0.SkipPrivateHops == specBool(query, "skip-private-hops", common.DefaultSkipPrivateHops)
 //   (and the same for ipv6, reverse-dns, source-public-ip, windows-driver)
 //   by: strconv.ParseBool result unconstrained (see getBoolParam).
+
+// ---------------------------------------------------------------------------------------------------------
+// TracerouteHandler: plumbing. A GET whose parameters parse runs RunTraceroute exactly once, on exactly the parsed
+// parameters (nothing is cached, defaulted or rewritten in between); anything else runs nothing.
+// ---------------------------------------------------------------------------------------------------------
+//@ func (*Server).TracerouteHandler
+//@ safety C19 C17 C15
+//@ requires[pre.nonnil]        s != nil && s.tr != nil && r != nil && r.URL != nil && w != nil && sendN >= 0
+//@ trustpre RunTraceroute pre.ctx : the request context is non-nil (net/http) and the Traceroute value built by NewTraceroute carries a public-IP fetcher; neither fact is tracked through net/http
+//@ ensures[C19.handler.once]   ncalls("(Traceroute).RunTraceroute") <= old(ncalls("(Traceroute).RunTraceroute")) + 1
+//@ ensures[C19.handler.run]    old(r.Method) == "GET" && ncalls(parseTracerouteParams) == old(ncalls(parseTracerouteParams)) + 1 && lastres(parseTracerouteParams, 1) == nil ==> ncalls("(Traceroute).RunTraceroute") == old(ncalls("(Traceroute).RunTraceroute")) + 1
+//@ ensures[C19+C17+C15.handler.params] ncalls("(Traceroute).RunTraceroute") == old(ncalls("(Traceroute).RunTraceroute")) + 1 ==> ncalls(parseTracerouteParams) == old(ncalls(parseTracerouteParams)) + 1 && lastres(parseTracerouteParams, 1) == nil && lastarg("(Traceroute).RunTraceroute", params).Hostname == lastres(parseTracerouteParams, 0).Hostname && lastarg("(Traceroute).RunTraceroute", params).Port == lastres(parseTracerouteParams, 0).Port && lastarg("(Traceroute).RunTraceroute", params).Protocol == lastres(parseTracerouteParams, 0).Protocol && lastarg("(Traceroute).RunTraceroute", params).MinTTL == lastres(parseTracerouteParams, 0).MinTTL && lastarg("(Traceroute).RunTraceroute", params).MaxTTL == lastres(parseTracerouteParams, 0).MaxTTL && lastarg("(Traceroute).RunTraceroute", params).TCPMethod == lastres(parseTracerouteParams, 0).TCPMethod && lastarg("(Traceroute).RunTraceroute", params).TracerouteQueries == lastres(parseTracerouteParams, 0).TracerouteQueries && lastarg("(Traceroute).RunTraceroute", params).E2eQueries == lastres(parseTracerouteParams, 0).E2eQueries && lastarg("(Traceroute).RunTraceroute", params).SkipPrivateHops == lastres(parseTracerouteParams, 0).SkipPrivateHops && lastarg("(Traceroute).RunTraceroute", params).ReverseDns == lastres(parseTracerouteParams, 0).ReverseDns && lastarg("(Traceroute).RunTraceroute", params).WantV6 == lastres(parseTracerouteParams, 0).WantV6 && lastarg("(Traceroute).RunTraceroute", params).Timeout == lastres(parseTracerouteParams, 0).Timeout
+//@ ensures[C19.handler.reject] old(r.Method) != "GET" ==> ncalls("(Traceroute).RunTraceroute") == old(ncalls("(Traceroute).RunTraceroute"))
+//@ modifies *, ghost isOpen, ghost closeN, ghost clock, ghost sendN, ghost sendLog, ghost sendClock, ghost tcpDialed, ghost ioFail, ghost cache.has, ghost cache.tag, ghost cache.ref, ghost cache.exp, ghost dns.ans, ghost dns.len, ghost dns.n
